@@ -25,6 +25,36 @@ func Entry(s string, p []byte, n int) {
 	goodAfterLoop(s)
 	badAfterLoop(s)
 	badNestedGuard(s, n)
+	goodToggle(n)
+	badToggle(n)
+}
+
+// a counter that is reflected inside {0, 1}: the interval fixpoint over the phis bounds it (ip_h1.go)
+func goodToggle(rounds int) (sum int) {
+	var pair [2]int
+	side := 0
+	if rounds > 3 {
+		side = 1
+	}
+	for i := 0; i < rounds; i++ {
+		sum += pair[side]
+		side = 1 - side
+	}
+	return sum
+}
+
+// reflected around 1 instead of 1/2: leaves {0, 1} on the second round
+func badToggle(rounds int) (sum int) {
+	var pair [2]int
+	side := 0
+	if rounds > 3 {
+		side = 1
+	}
+	for i := 0; i < rounds; i++ {
+		sum += pair[side]
+		side = 2 - side
+	}
+	return sum
 }
 
 // the index sits between the two tests of a nested exit guard: the inner test has not run yet
